@@ -790,6 +790,12 @@ func (c *Client) Start() (addr net.Addr, err error) {
 	// logStderr calls c.pipesWaitGroup.Done()
 	go c.logStderr(runner.Name(), runner.Stderr())
 
+	// Account for the stdout reader started further down before the goroutine
+	// below can call pipesWaitGroup.Wait(): if stderr reaches EOF at once (the
+	// plugin died immediately) the counter would otherwise drop to zero and a
+	// later Add would race with that Wait.
+	c.pipesWaitGroup.Add(1)
+
 	c.clientWaitGroup.Add(1)
 	go func() {
 		// ensure the context is cancelled when we're done
@@ -822,7 +828,6 @@ func (c *Client) Start() (addr net.Addr, err error) {
 	// out of stdout
 	linesCh := make(chan string)
 	c.clientWaitGroup.Add(1)
-	c.pipesWaitGroup.Add(1)
 	go func() {
 		defer c.clientWaitGroup.Done()
 		defer c.pipesWaitGroup.Done()
